@@ -219,7 +219,7 @@ def leaves(e, acc=None):
     elif t == "prod":
         for x in e[1:]:
             leaves(x, acc)
-    elif t == "sum":
+    elif t in ("sum", "osum"):
         leaves(e[2], acc)
     elif t == "frac":
         leaves(e[1], acc)
@@ -260,6 +260,20 @@ def eval_expr(e, model: Fscm, nu, rd: Reading, env=None, counter=None):
         if d == 0:
             raise Undefined()
         return n / d
+    if t == "osum":
+        # marginalisation over OUTCOME occurrences only (what conditioning means): the bound value is used for children /
+        # parents named so, never for subscripts
+        names = [int(v[1]) for v in e[1]]
+        tot = F(0)
+        start = counter[0]
+        for vals in itt.product(*[range(model.card[n]) for n in names]):
+            env2 = dict(env)
+            oenv = dict(env.get("__outcome_only__", {}))
+            oenv.update(zip(names, vals))
+            env2["__outcome_only__"] = oenv
+            counter[0] = start
+            tot += eval_expr(e[2], model, nu, rd, env2, counter)
+        return tot
     if t == "sum":
         names = [int(v[1]) for v in e[1]]
         tot = F(0)
@@ -288,6 +302,8 @@ def eval_expr(e, model: Fscm, nu, rd: Reading, env=None, counter=None):
                 raise Undefined()   # x and x' in the same subscript: not a distribution the reading defines
             if v[2] != "n":
                 val = nu[name][_star(v[2])]
+            elif name in env.get("__outcome_only__", ()):
+                val = env["__outcome_only__"][name]
             elif name in env:
                 val = env[name]
             elif (leaf_no, name) in rd.choice:
@@ -325,7 +341,7 @@ def free_names(e, bound=frozenset()):
         elif t == "prod":
             for y in x[1:]:
                 walk(y, bound)
-        elif t == "sum":
+        elif t in ("sum", "osum"):
             walk(x[2], bound | {int(v[1]) for v in x[1]})
         elif t == "frac":
             walk(x[1], bound)
